@@ -327,3 +327,60 @@ unit({
         {'file': 'src/Bitmap/Color.cpp', 'qual': 'Color::SwapRedAndBlue', 'cls': 'Color', 'cname': 'Color_SwapRedAndBlue'},
     ],
 })
+
+# --------------------------------------------------------------------------- U-SPRH (tileset / PRT headers, validators)
+TH = 'src/Sprite/TilesetHeaders.cpp'; TL = 'src/Sprite/TilesetLoader.cpp'
+SPR_TM = dict(BMP_TM, **{'Tag': 'Tag', 'SectionHeader': 'SectionHeader', 'TilesetHeader': 'TilesetHeader', 'PpalHeader': 'PpalHeader', 'PaletteHeader': 'PaletteHeader',
+                         'std::uint32_t': 'uint32_t', 'ImageMeta': 'ImageMeta', 'ImageType': 'ImageType', 'ArtFile': 'ArtFile', 'Palette8Bit': 'Palette8Bit',
+                         'std::vector<Palette8Bit>': 'vec_Palette8Bit', 'std::vector<ImageMeta>': 'vec_ImageMeta', 'std::vector<Animation>': 'vec_Animation'})
+def _fn(file, qual, cname, **kw):
+    d = {'file': file, 'qual': qual, 'cname': cname}; d.update(kw); return d
+unit({
+    'name': 'sprh',
+    'typemap': SPR_TM,
+    'enums': [('src/Bitmap/BmpCompression.h', 'BmpCompression'), ('src/Bitmap/BitmapFile.h', 'ScanLineOrientation')],
+    'structs': [STR_VIEW, TAG_T] + BMP_STRUCTS + [('src/Sprite/SectionHeader.h', 'SectionHeader'), ('src/Sprite/TilesetHeaders.h', 'TilesetHeader'), ('src/Sprite/TilesetHeaders.h', 'PpalHeader'),
+                ('src/Sprite/PaletteHeader.h', 'PaletteHeader'), 'typedef struct Palette8Bit { Color e[256]; } Palette8Bit;',
+                ('src/Sprite/ImageMeta.h', 'ImageType'), ('src/Sprite/ImageMeta.h', 'ImageMeta'),
+                VIEW('vec_Palette8Bit', 'Palette8Bit'), VIEW('vec_ImageMeta', 'ImageMeta'), 'typedef struct Animation Animation;', VIEW('vec_Animation', 'Animation'),
+                ('src/Sprite/ArtFile.h', 'ArtFile')],
+    'globals': BMP_GLOBALS + [
+        {'file': 'src/Sprite/TilesetLoader.h', 'qual': 'TagFileSignature', 'ctype': 'Tag', 'cname': 'TagFileSignature'},
+        {'file': 'src/Sprite/TilesetCommon.h', 'qual': 'DefaultTagData', 'ctype': 'Tag', 'cname': 'DefaultTagData'},
+        {'file': 'src/Sprite/TilesetCommon.h', 'qual': 'DefaultPaletteHeaderSize', 'ctype': 'uint32_t', 'cname': 'DefaultPaletteHeaderSize'},
+        {'file': 'src/Sprite/PaletteHeader.cpp', 'qual': 'TagSection', 'ctype': 'Tag', 'cname': 'TagSection'},
+        {'file': 'src/Sprite/PaletteHeader.cpp', 'qual': 'TagHeader', 'ctype': 'Tag', 'cname': 'TagHeader'},
+        {'file': 'src/Sprite/PaletteHeader.cpp', 'qual': 'TagData', 'ctype': 'Tag', 'cname': 'TagData'},
+    ],
+    'scoped': {'TilesetHeader': 'TilesetHeader', 'PpalHeader': 'PpalHeader', 'Tileset': '', 'PaletteHeader': 'PaletteHeader', 'ImageHeader': 'ImageHeader'},
+    'throwing_calls': ('throwReadError',),
+    'default_ctors': {'SectionHeader': 'SectionHeader_ctor0', 'PaletteHeader': 'PaletteHeader_ctor'},
+    'calls': dict(BMP_CALLS, **{
+        'SectionHeader': {2: N('SectionHeader_make', recv='none'), 1: N('SectionHeader_copy', recv='none')},
+        'CalculatePixelHeaderLength': N('Tileset_CalculatePixelHeaderLength', recv='none'),
+        'TotalLength': N('SectionHeader_TotalLength'),
+        'Validate': [(r'.*(overallHeader|sectionHeader|dataHeader)', T('SectionHeader_Validate'))],
+    }),
+    'functions': [
+        _fn('src/Sprite/SectionHeader.cpp', 'SectionHeader::SectionHeader', 'SectionHeader_ctor0', cls='SectionHeader', ctor=True, nparams=0),
+        _fn('src/Sprite/SectionHeader.cpp', 'SectionHeader::SectionHeader', 'SectionHeader_ctor2', cls='SectionHeader', ctor=True, nparams=2),
+        _fn('src/Sprite/SectionHeader.cpp', 'SectionHeader::Validate', 'SectionHeader_Validate', cls='SectionHeader'),
+        _fn('src/Sprite/SectionHeader.h', 'TotalLength', 'SectionHeader_TotalLength', cls='SectionHeader', inclass='SectionHeader'),
+        _fn(TH, 'TilesetHeader::Create', 'TilesetHeader_Create', cls='TilesetHeader', static=True),
+        _fn(TH, 'TilesetHeader::Validate', 'TilesetHeader_Validate', cls='TilesetHeader'),
+        _fn(TH, 'PpalHeader::Create', 'PpalHeader_Create', cls='PpalHeader', static=True),
+        _fn(TH, 'PpalHeader::Validate', 'PpalHeader_Validate', cls='PpalHeader'),
+        _fn(TL, 'ValidateFileSignatureHeader', 'Tileset_ValidateFileSignatureHeader', ordinal=0),
+        _fn(TL, 'ValidatePaletteHeader', 'Tileset_ValidatePaletteHeader', ordinal=0),
+        _fn(TL, 'ValidatePixelHeader', 'Tileset_ValidatePixelHeader', ordinal=0, autos={'expectedLength': 'uint32_t'}),
+        _fn(TL, 'CalculatePbmpSectionSize', 'Tileset_CalculatePbmpSectionSize', ordinal=0),
+        _fn(TL, 'CalculatePixelHeaderLength', 'Tileset_CalculatePixelHeaderLength', ordinal=0),
+        _fn(TL, 'ValidateTileset', 'Tileset_ValidateTileset', ordinal=0),
+        _fn('src/Sprite/PaletteHeader.cpp', 'PaletteHeader::PaletteHeader', 'PaletteHeader_ctor', cls='PaletteHeader', ctor=True),
+        _fn('src/Sprite/PaletteHeader.cpp', 'PaletteHeader::CreatePaletteHeader', 'PaletteHeader_CreatePaletteHeader', cls='PaletteHeader', static=True,
+            calls={'PaletteHeader': N('PaletteHeader_default', recv='none')}),
+        _fn('src/Sprite/PaletteHeader.cpp', 'PaletteHeader::Validate', 'PaletteHeader_Validate', cls='PaletteHeader'),
+        _fn('src/Sprite/ArtFile.cpp', 'ArtFile::VerifyImageIndexInBounds', 'ArtFile_VerifyImageIndexInBounds', cls='ArtFile'),
+        _fn('src/Sprite/ArtFile.cpp', 'ArtFile::ValidateImageMetadata', 'ArtFile_ValidateImageMetadata', cls='ArtFile', rangefor={'imageMeta': 'ImageMeta'}),
+    ],
+})
